@@ -20,6 +20,7 @@ func verifVersionsEqExcept(post, pre *secret, v api.SecretVersion) bool {
 func verifHarnessC02Put() {
 	k := verifSymKV(param("secrets"), param("versions"), "save.fail")
 	assume(verifKVInv(k))
+	assume(verifKVBound(k))
 	d := verifDB(k, &verifSink{})
 	name := nondetString("name")
 	other := nondetString("other")
